@@ -159,6 +159,26 @@ func c12Open(dir string, cfg c12Cfg) (*c12Store, error) {
 	if cfg.Typed {
 		s.st.SetType(tItem{})
 	}
+	if cfg.Prefix != "" {
+		// a second store shares the database (what SetPrefix is for); its prefix sorts after
+		// this store's and its values look like this store's. They are none of this store's
+		// business: not in its queries, not in its index after a rebuild
+		other := badgerstore.NewStore(db).SetPrefix("zzother")
+		if cfg.Typed {
+			other.SetType(tItem{})
+		}
+		for i, k := range []string{"a", "ab", "b"} {
+			wt := other.Write(fmt.Sprintf("foreign%d", i))
+			if !wt.Exists() {
+				if err := wt.Create(mkValue2(cfg.Typed, fmt.Sprintf("foreign.u%d", i), k, "")); err != nil {
+					wt.Close()
+					db.Close()
+					return nil, fmt.Errorf("second store in the same database: %v", err)
+				}
+			}
+			wt.Close()
+		}
+	}
 	if cfg.Indexes {
 		s.qs = badgerstore.NewQueryStore(s.st, idxIQ).
 			AddIndex(badgerstore.Index{Name: "k", Key: idxKey("k", nil)}).
@@ -251,6 +271,7 @@ func C12WorkMain(file string) int {
 		return 3
 	}
 	line("OPENED")
+	base := sched.Counts() // hook hits of opening (the second store's values) are not kill candidates
 	if w.KillPoint != "" {
 		sched.KillAtHit(w.KillPoint, w.KillN)
 	}
@@ -282,6 +303,9 @@ func C12WorkMain(file string) int {
 	}
 	s.db.Close()
 	cm := sched.Counts()
+	for k, v := range base {
+		cm[k] -= v
+	}
 	cm["elapsed_us"] = int64(time.Since(t0) / time.Microsecond)
 	cb, _ := json.Marshal(cm)
 	os.WriteFile(w.CountFile, cb, 0o644)
